@@ -84,6 +84,9 @@ pub mod process {
         fn write(&self, fd: Fd, buf: &[u8]) -> io::Result<usize>;
         fn flush(&self, fd: Fd) -> io::Result<()>;
         fn read(&self, fd: Fd, buf: &mut [u8]) -> io::Result<usize>;
+        /// Drain stdout and stderr together until both are at end of file,
+        /// like `wait_with_output` of std does for two pipes.
+        fn read2(&self, stdout: &mut Vec<u8>, stderr: &mut Vec<u8>) -> io::Result<()>;
         /// The parent closed its end of `fd`.
         fn close(&self, fd: Fd);
         fn wait(&self) -> io::Result<ExitStatus>;
@@ -427,10 +430,9 @@ pub mod process {
                     err.read_to_end(&mut stderr)?;
                 }
                 (Some(mut out), Some(mut err)) => {
-                    if matches!(out.0, OutInner::Sim(..)) {
-                        // The simulated child never blocks on stderr.
-                        out.read_to_end(&mut stdout)?;
-                        err.read_to_end(&mut stderr)?;
+                    if let OutInner::Sim(io, _) = &out.0 {
+                        io.read2(&mut stdout, &mut stderr)?;
+                        drop(err);
                     } else {
                         let reader = std::thread::spawn(move || {
                             let mut bytes = Vec::new();
